@@ -45,7 +45,8 @@ LEVEL_TEXT = ("Exploration: hundreds to thousands of stacks (all permutations of
               " Neurites lying in a plane thinner than a voxel; dtypes spelled as scalar type / dtype object / name; voxels whose level x maximum is an exact integer must convert exactly."
               " The older single-channel front end (read_images: get_full, shape, indexing)."
               " Flat neurites in one optical section (a raster of one z slice, saved and read back); two rasters of one transformer taken slice by slice in turns."
-              " The caller's resolution array rescaled in place after construction.")
+              " The caller's resolution array rescaled in place after construction."
+              " A stack opened by a relative name and looked at after the caller changed directory.")
 LEVEL_NOTE = ("Raster workload bounded to proper round cones (segment longer than the radius "
               "difference by a margin) and trees with >= 2 nodes; a voxel centre within 1e-3 of the "
               "surface, or a boundary centre within 1e-4 of the upper bound, is not decided. Trusts "
